@@ -101,6 +101,10 @@ func (r ReservationToPodEventHandler) OnDelete(obj interface{}) {
 }
 
 func IsObjValidActiveReservation(obj interface{}) bool {
+	// a delete found on re-list arrives as a tombstone; the handler behind the filter knows how to unwrap it
+	if tombstone, ok := obj.(cache.DeletedFinalStateUnknown); ok {
+		obj = tombstone.Obj
+	}
 	reservation, _ := obj.(*schedulingv1alpha1.Reservation)
 	err := ValidateReservation(reservation)
 	if err != nil {
